@@ -58,6 +58,7 @@ type Session struct {
 	Calls    []dispatch.Call `json:"calls"`
 	Blocks   [][]Child       `json:"blocks"`
 	Nest     string          `json:"nest"` // conc: plain | if | for
+	Pre      bool            `json:"pre"`  // conc: the locals the children assign already exist before the block
 	NReq     int             `json:"nreq"` // conc on a pool: this many requests run the body at the same time
 }
 
@@ -396,6 +397,17 @@ func concText(s *Session) string {
 	var sb strings.Builder
 	sb.WriteString("rule \"c\" \"d\" salience 1\nbegin\n  loc = mkloc()\n")
 	n := 0
+	if s.Pre {
+		for _, b := range s.Blocks {
+			for _, c := range b {
+				n++
+				if c.Kind == "asgL" || c.Kind == "asgML" {
+					fmt.Fprintf(&sb, "  v%d = 0\n", n)
+				}
+			}
+		}
+		n = 0
+	}
 	var seen []string
 	for bi, b := range s.Blocks {
 		ind := "  "
